@@ -6,7 +6,7 @@ open C02_model
 
 let z_to_int (z : z) : int = match z with Z0 -> 0 | Zpos p -> int_of_pos p | Zneg p -> - (int_of_pos p)
 
-let scenario (udp : bool) (maxq : int) (ops : string list) : string =
+let scenario ?(cap = 0) (udp : bool) (maxq : int) (ops : string list) : string =
   let st = ref (einit, tinit) in
   let cbs = ref [] in
   let step o = let ((st', _), c) = sstep !st o in st := st'; cbs := !cbs @ c in
@@ -65,10 +65,14 @@ let scenario (udp : bool) (maxq : int) (ops : string list) : string =
        | None -> if ok then e (IoCmd (outcome_of kind, SoOk))
        | Some q -> if ok then begin drain_connects := sid :: !drain_connects; q := !q @ [(outcome_of kind, SoOk)] end)
     | ["v"] ->
+      (* at the session cap (UC scenarios) the via-connect command fails before a session exists: the id it handed
+         out gets its close and nothing else *)
+      let at_cap = cap > 0 && List.length (fst !st).e_tab >= cap + 2 in   (* the two barrier sessions count too *)
+      let co = if at_cap then CoFailEarly else CoImmediate in
       let (ok, sid) = api_connect () in
       (match queued with
-       | None -> if ok then e (IoCmd (CoImmediate, SoOk))
-       | Some q -> if ok then begin drain_connects := sid :: !drain_connects; q := !q @ [(CoImmediate, SoOk)] end)
+       | None -> if ok then e (IoCmd (co, SoOk))
+       | Some q -> if ok then begin drain_connects := sid :: !drain_connects; q := !q @ [(co, SoOk)] end)
     | ["a"] ->
       if not (drained ()) then begin
         let sid = next_id () in
@@ -187,6 +191,7 @@ let handle (line : string) : string =
   match split_on ' ' line with
   | ["T"; maxq; ops] -> scenario false (int_of_string maxq) (split_on ';' ops)
   | ["U"; ops] -> scenario true 1024 (split_on ';' ops)
+  | ["UC"; cap; ops] -> scenario ~cap:(int_of_string cap) true 1024 (split_on ';' ops)
   | "X" :: _ -> "X"
   | "L" :: toks ->
     let rec upto acc = function [] -> List.rev acc | "#" :: _ -> List.rev acc | t :: r -> upto (t :: acc) r in
